@@ -241,8 +241,9 @@ def check(ck):
                    "replies cannot follow the form of a 1.0 request", q.loc(fi, fi.node))
             continue
         for n in copies:
-            guard = [g.nodes[d] for d in dom[n.id] if g.nodes[d].kind == "branch" and g.nodes[d].polarity is True
-                     and dump(g.nodes[d].test) == "'jsonrpc' not in %s" % req]
+            guard = [g.nodes[d] for d in dom[n.id] if g.nodes[d].kind == "branch" and (
+                (g.nodes[d].polarity is True and dump(g.nodes[d].test) == "'jsonrpc' not in %s" % req) or
+                (g.nodes[d].polarity is False and dump(g.nodes[d].test) == "'jsonrpc' in %s" % req))]
             ck.require(bool(guard), "C13.4", "%s: copy guarded by the request" % q.fn(fi),
                        "copy made only when \"jsonrpc\" is absent from this request",
                        "the 1.0 compatibility copy is not guarded by `\"jsonrpc\" not in %s`: the form of the reply does not "
